@@ -12,6 +12,9 @@ TARGETED = {
  "C14_r2": ["C14"], "C15_r2": ["C15"], "C16_r2": ["C16"], "C17_r2": ["C17"], "C18_r2": ["C18", "C01"], "C19_r2": ["C19"], "C20_r2": ["C20"],
  "C01_r3": ["C01"], "C02_r3": ["C02"], "C03_r3": ["C03"], "C04_r3": ["C04"], "C07_r3": ["C07"], "C09_r3": ["C09"], "C11_r3": ["C11"],
  "C12_r3": ["C12"], "C13_r3": ["C13"], "C14_r3": ["C14"], "C15_r3": ["C15"], "C16_r3": ["C16"], "C18_r3": ["C18"], "C20_r3": ["C20"],
+ "C01_r4": ["C01"], "C02_r4": ["C02"], "C03_r4": ["C03"], "C04_r4": ["C04"], "C05_r4": ["C05"], "C06_r4": ["C06"], "C07_r4": ["C07"],
+ "C08_r4": ["C08", "C14"], "C09_r4": ["C09"], "C10_r4": ["C10"], "C11_r4": ["C11"], "C12_r4": ["C12", "C16"], "C13_r4": ["C13"], "C14_r4": ["C14"],
+ "C15_r4": ["C15"], "C16_r4": ["C16"], "C17_r4": ["C17"], "C18_r4": ["C18"], "C19_r4": ["C19"], "C20_r4": ["C20"],
 }
 STRENGTHENED = {
  "C02": "names with escaped braces added to the C02 / C03 / C17 corpora (first run: missed by C02 and C03)",
@@ -30,6 +33,19 @@ STRENGTHENED = {
  "C13_r3": "same as C04_r3, plus a fallback-trait probe that no is_* predicate EXISTS for a disabled variant (an extra generated method is otherwise unobservable)",
  "C12_r3": "pairs equal under Unicode folding as two spellings of ONE variant added to C12 (first run: missed)",
  "C02_r2": "several spellings of one variant differing only in ASCII case added to C01 / C14 (first run: caught only by C02)",
+ "C01_r4": "NON-ASCII identifiers under every style: a Rust reference on heck itself (genprobe `mod reference`) names them, the name is carried through the model as a spelling; families in C01 C02 C03 C07 C13 (first run: missed — the model is stated over ASCII identifiers)",
+ "C03_r4": "same as C01_r4 (caught by chance after the identifier pool was widened; the systematic non-ASCII family makes it certain)",
+ "C07_r4": "same as C01_r4, plus convert_case / snakify on 32 non-ASCII and raw identifiers x 17 styles at generator level",
+ "C13_r4": "same as C01_r4: method names of non-ASCII identifiers with digits come from the reference's snakify",
+ "C02_r4": "the EMPTY literal as the only serialize value added to C02 (first run: missed)",
+ "C04_r4": "histories that jump past the end (nth(usize::MAX), skip / step_by(usize::MAX)) added to C04 (first run: caught only by C05)",
+ "C05_r4": "LARGE enums (255 / 256 / 257 enabled variants) driven to exhaustion added to C05; an observer that does not terminate is killed and blamed (first run: missed, then hung)",
+ "C11_r4": "custom parse error together with a default variant added to C11 (first run: missed)",
+ "C12_r4": "use_phf twins of the Unicode-equal pairs (earlier case-insensitive, later case-sensitive, both orders) added to C12 and C16 (first run: missed)",
+ "C14_r4": "doc lines starting with tab / NBSP / U+3000 / CR / newline (block comments) added to C14 (first run: missed)",
+ "C16_r4": "variants named Ok / Err / Some / None glob-imported at the definition site (prelude-shadow twins) added to C16 — this exposed the genuine defect F10 of the unchanged tree",
+ "C19_r4": "a fourth build configuration: crate = \"<one identifier>\" naming a local alias or a local re-exporting module (first run: missed)",
+ "C20_r4": "bracket / placeholder errors inside long non-ASCII literals at every byte alignment added to C20 (first run: missed)",
 }
 matrix = {}
 mp = os.path.join(V, "matrix.tsv")
@@ -45,7 +61,7 @@ for name in sorted(os.listdir(V)):
     ver = open(os.path.join(d, ".verify")).read().split() if os.path.exists(os.path.join(d, ".verify")) else ["?", "?", "?"]
     notes = open(os.path.join(d, "notes.md")).read() if os.path.exists(os.path.join(d, "notes.md")) else ""
     meta = {
-        "property": name.split("_")[0], "round": 3 if name.endswith("_r3") else (2 if name.endswith("_r2") else 1),
+        "property": name.split("_")[0], "round": 4 if name.endswith("_r4") else (3 if name.endswith("_r3") else (2 if name.endswith("_r2") else 1)),
         "what_it_needs_to_manifest": notes[:2500],
         "confirmed_on_current_HEAD": {"demo_without_change_rc": ver[0], "existing_suite_with_change_rc": ver[1], "demo_with_change_rc": ver[2],
                                       "how": "tools/seed_verify_all.sh (scratch worktree of /repo HEAD; cargo test -p strum_tests --offline --test seeded_demo before / after "
